@@ -47,3 +47,21 @@ Print Assumptions C08_oer_zero_width_elements_unbounded_refuted.
 (* OPEN: C08_uper_dec_steps : an instrumented step count linear in (length data + 1) times a
    type-dependent constant (fixed-size SEQUENCE OF of zero-width elements make the constant
    exponential in the nesting, so the bound must carry the declared sizes). *)
+
+(** Aligned PER: the same two facts for per.py's model. *)
+From Asn1V Require Import Per.PerImpl Per.PerPrim Per.PerPB Per.PerExt.
+
+Theorem C08_per_fragment_loop_bounded_partial :
+  forall (A : Type) (rd : reader A), PBA rd -> never_fuel rd -> never_fuel (read_frag_auto rd).
+Proof. exact @PBA_read_frag_auto_not_fuel. Qed.
+Print Assumptions C08_per_fragment_loop_bounded_partial.
+
+Theorem C08_per_decode_in_bounds : ltac:(let T := type of per_decode_in_bounds in exact T).
+Proof. exact per_decode_in_bounds. Qed.
+Print Assumptions C08_per_decode_in_bounds.
+
+Theorem C08_per_decode_ext_stable :
+  forall numeric fuel e t data v n tail,
+    per_decode numeric fuel e t data = Ok (v, n) -> per_decode numeric fuel e t (data ++ tail)%list = Ok (v, n).
+Proof. exact per_decode_ext_stable. Qed.
+Print Assumptions C08_per_decode_ext_stable.
